@@ -9,6 +9,8 @@
            usecond <outcome>     unhandled consumer's `head` check: outcome `mark:<id>` or `none`
            end                   prints summary -/
 import GeckoModel.Model.Dispatch
+import GeckoModel.Model.PacketConsumer
+import GeckoModel.Model.DriverUtil
 open GeckoModel.Dispatch
 
 structure V where
@@ -17,6 +19,8 @@ structure V where
   fair : Bool := true
   maxHeadAge : Nat := 0
   steps : Nat := 0
+  pc : GeckoModel.PacketConsumer.PC := {}
+  conn : GeckoModel.PacketConsumer.Conn := ⟨[], 0, [], []⟩
 
 def V.accepts (v : V) : Accepts := fun k x => v.acc.contains (k, x)
 
@@ -78,6 +82,20 @@ def stepLine (v : V) (line : String) : V × String :=
         | none => (v, s!"rejected: unhandled consumer ran at {v.s.now} before its wake-up {v.s.u.wake}"))
   | ["end"] => (v, s!"end steps={v.steps} pops={v.s.pops.length} queued={v.s.queue.length} maxHeadAge={v.maxHeadAge} now={v.s.now}")
   | ["reset"] => ({}, "ok")
+  -- the long-lived packet consumer at the byte level (Model/PacketConsumer.lean)
+  | ["pc-new", ip, port, spa, cli] => (match Drv.unhex ip, port.toNat?, Drv.unhex spa, Drv.unhex cli with
+    | some ip, some port, some spa, some cli => ({ v with pc := {}, conn := ⟨ip, port, spa, cli⟩ }, "ok")
+    | _, _, _, _ => (v, "bad-op"))
+  | ["pc-dg", dg, ip, port] => (match Drv.unhex dg, Drv.unhex ip, port.toNat? with
+    | some dg, some ip, some port =>
+      if !GeckoModel.PacketConsumer.canHandle dg then (v, "no-claim")
+      else
+        let c := GeckoModel.PacketConsumer.handle v.pc dg ip port
+        ({ v with pc := c }, match GeckoModel.PacketConsumer.requeue v.conn c with
+          | some (some x) => s!"requeue {Drv.hex x}"
+          | some none => "requeue none"
+          | none => "drop")
+    | _, _, _ => (v, "bad-op"))
   | _ => (v, "bad-op")
 
 partial def loop (h : IO.FS.Stream) (v : V) : IO Unit := do
